@@ -203,8 +203,30 @@ def earlyTrigger (cfg : HTConfig) (queued : List Queued) : Option WAct × Bool :
   | .customRelease keys => (customRelease keys queued, false)
   | .customExcept keys => customExcept keys queued
 
-/-- `WaitingState::handle_hold_tap` -/
+/-- [t8:while-down] the `while_down` closure of `handle_hold_tap`: the queued events that precede the
+key's own release (all of them when it has not been released) -/
+def whileDown (c : Coord) : List Queued → List Queued
+  | [] => []
+  | s :: rest => if s.ev == .release c then [] else s :: whileDown c rest
+
+/-- `WaitingState::handle_hold_tap`; the early triggers look only at `whileDown` (repair
+PENDING-1; the pinned earlier behaviour - the whole queue - is `handleHoldTapPinned`) -/
 def handleHoldTap (w : Waiting) (cfg : HTConfig) (queued : List Queued) : Waiting × Option WAct :=
+  if queued.length % 256 == w.prevQueueLen && w.timeout > 0 then (w, none)
+  else
+    let w' := { w with prevQueueLen := queued.length % 256 }
+    match earlyTrigger cfg (whileDown w.coord queued) with
+    | (some a, _) => (w', some a)
+    | (none, skipTimeout) =>
+      match queued.find? (fun s => isCorrespondingRelease w' s.ev) with
+      | some q =>
+        if w'.timeout > w'.delay - q.since then (w', some .tap) else (w', some .timeout)
+      | none =>
+        if w'.timeout == 0 && !skipTimeout then (w', some .timeout) else (w', none)
+
+/-- [t8:while-down] `handle_hold_tap` as it was before the repair: the early triggers scanned the whole
+queue, also what was queued after the key's own release (kept for the counterexample theorems) -/
+def handleHoldTapPinned (w : Waiting) (cfg : HTConfig) (queued : List Queued) : Waiting × Option WAct :=
   if queued.length % 256 == w.prevQueueLen && w.timeout > 0 then (w, none)
   else
     let w := { w with prevQueueLen := queued.length % 256 }
@@ -253,8 +275,25 @@ def countTaps (w : Waiting) : Nat → List Queued → Except Nat Nat
     else if s.ev.isPress then .error n
     else countTaps w n rest
 
+/-- the `in_this_dance` closure of `handle_tap_dance` (since fix PENDING-1): a dance never has more
+taps than it has actions; presses of the key queued beyond that are not counted (and so not evicted) -/
+def inThisDance (numTaps maxTaps : Nat) : Nat := min numTaps maxTaps
+
 /-- `WaitingState::handle_tap_dance` -/
 def handleTapDance (w : Waiting) (numTaps maxTaps : Nat) (queued : List Queued) :
+    List Queued × Option WAct × Nat :=
+  if queued.length % 256 == w.prevQueueLen && w.timeout > 0 then (queued, none, numTaps)
+  else if w.timeout == 0 then (evictTaps w numTaps queued, some .tap, numTaps)
+  else
+    match countTaps w 1 queued with
+    | .ok n =>
+      if n ≥ maxTaps then (evictTaps w (inThisDance n maxTaps) queued, some .tap, inThisDance n maxTaps)
+      else (queued, none, n)
+    | .error n => (evictTaps w (inThisDance n maxTaps) queued, some .tap, inThisDance n maxTaps)
+
+/-- behaviour before fix PENDING-1 (used only by a counterexample theorem): the dance was decided on
+every press of the key that was queued, also beyond the list length, and all of them were evicted -/
+def handleTapDanceUncapped (w : Waiting) (numTaps maxTaps : Nat) (queued : List Queued) :
     List Queued × Option WAct × Nat :=
   if queued.length % 256 == w.prevQueueLen && w.timeout > 0 then (queued, none, numTaps)
   else if w.timeout == 0 then (evictTaps w numTaps queued, some .tap, numTaps)
@@ -357,7 +396,7 @@ def decomposeLoop (w : Waiting) (g : ChordsGroup) (dflt : Coord) (queued : List 
 def decomposeChord (w : Waiting) (g : ChordsGroup) (queued : List Queued) (aq : ActionQueue) : ActionQueue :=
   let starting := (g.getKeys w.coord).getD 0
   let (order, dflt) := decomposeFold w g starting [starting] w.coord queued
-  decomposeLoop w g dflt queued order (w.delay + w.ticks) order.length 0 aq
+  decomposeLoop w g dflt queued order (min (w.delay + w.ticks) U16_MAX) order.length 0 aq
 
 /-- `WaitingState::handle_chord` -/
 def handleChord (w : Waiting) (g : ChordsGroup) (queued : List Queued) (aq : ActionQueue) :
@@ -450,6 +489,17 @@ def OneShotState.tick (o : OneShotState) : OneShotState × Option (List Coord) :
                 ticksToIgnoreEvents := 0, keys := [], otherPressedKeys := [], releasedKeys := [] },
        some o.releasedKeys)
     else (o, none)
+
+/-- `Action::OneShotIgnoreEventsTicks` arm of `do_action` as repaired by fix PENDING-t5-1: the
+countdown only runs (`tick_osh`) and is only cleared while a one-shot is active, so it is only
+started then. -/
+def OneShotState.armIgnore (o : OneShotState) (ticks : Nat) : OneShotState :=
+  if o.keys.isEmpty then o else { o with ticksToIgnoreEvents := ticks }
+
+/-- the pinned behaviour before that repair: armed unconditionally (kept for the counterexample
+theorem `stale_pause_counter_counterexample` of Props/C06) -/
+def OneShotState.armIgnorePinned (o : OneShotState) (ticks : Nat) : OneShotState :=
+  { o with ticksToIgnoreEvents := ticks }
 
 inductive OshKey | oneShotKey (c : Coord) | other (c : Coord)
 
@@ -677,7 +727,7 @@ def takeWaiting (s : Layout) (idx : Option Nat) : Option (Waiting × Layout) :=
 
 def waitingDelay (w : Waiting) : Nat :=
   match w.config with
-  | .holdTap _ | .chord _ => w.delay + w.ticks
+  | .holdTap _ | .chord _ => min (w.delay + w.ticks) U16_MAX  -- `w.delay.saturating_add(w.ticks)`
   | .tapDance .. => 0
 
 /-! ### The arms of `do_action` that do not recurse, as separate functions (so that lemmas can be
@@ -901,7 +951,7 @@ mutual
           | (s, none) => .ok (s, cu)
       | .oneShotIgnoreEventsTicks ticks =>
         let s := updateCoord s coord
-        .ok ({ s with rptAction := some action, oneshot := { s.oneshot with ticksToIgnoreEvents := ticks } }, .noEvent)
+        .ok ({ s with rptAction := some action, oneshot := s.oneshot.armIgnore ticks }, .noEvent)
       | .tapDance actions timeout eager =>
         if !eager then
           if layerStack.length > MAX_ACTIVE_LAYERS then .error .layerStackOverflow else
